@@ -3,7 +3,8 @@
 From InvokeVerif Require Import Corr.C18Corr Proofs.C07_fuel Proofs.C18_parser.
 From InvokeVerif Require Import Spec.C01Spec Proofs.C01_steps Proofs.C01_occ Proofs.C01_roundtrip
      Proofs.C01_final Proofs.C18_placement Proofs.C18_program Proofs.C18_values
-     Proofs.C18_program_values.
+     Proofs.C18_program_values Proofs.C18_overrides.
+From InvokeVerif Require Model.ProgramTypes Model.ProgramModel.
 
 (** Remainder (full): everything after the first bare "--" is the remainder,
     verbatim; and the parse of the rest is a function of the tokens before it. *)
@@ -247,6 +248,38 @@ Theorem C18_program_prefix_placement_equiv_partial :
       g_core gf = g_core gp /\ g_tasks gf = g_tasks gp /\ g_tasks gp = expected cs inv /\
       g_remainder gf = g_remainder gp.
 Proof. exact program_prefix_placement_equiv. Qed.
+
+(** C18 x C15 (Model/ProgramModel.v, Program.update_config): the core values
+    determine the *overrides* configuration level and the runtime configuration
+    file; hence a core prefix placed anywhere admissible yields the SAME
+    overrides tree, the same runtime path and the same task calls.
+    [coreargs_of] reads Program.args as update_config does; [pw] is what
+    getpass() would return (an input of ProgramModel, not a parse result). *)
+Theorem C18_placement_same_overrides_partial :
+  forall cs ic os calls1 t asn items1 items2 calls2 c pw,
+    let inv := calls1 ++ mkCall t asn (items1 ++ items2) :: calls2 in
+    simple_guard cs ic inv = true ->
+    nth_error cs t = Some c ->
+    forallb (copt_free cs c) os = true ->
+    copts_ok true cs (rc_args (init_ctx ic)) os = true ->
+    exists gf gp,
+      prog_obs ic cs (flat_map spell_copt os ++ spell cs inv) = Ok gf /\
+      prog_obs ic cs (spell cs calls1 ++ (asn :: flat_map (spell_item c) items1)
+                      ++ flat_map spell_copt (map unglue os)
+                      ++ flat_map (spell_item c) items2 ++ spell cs calls2) = Ok gp /\
+      overrides_from gf pw = overrides_from gp pw /\
+      ProgramModel.runtime_path_of (coreargs_of (g_core gf) pw) None
+        = ProgramModel.runtime_path_of (coreargs_of (g_core gp) pw) None /\
+      g_tasks gf = g_tasks gp.
+Proof. exact prefix_placement_same_overrides. Qed.
+
+Example C18_overrides_example :
+  exists gp,
+    prog_obs core_ctx ex_cs ["b"; "-i"; "a"; "-e"; "-T"; "5"; "--clean"; "deploy"; "-t=prod"] = Ok gp /\
+    overrides_from gp None =
+      Node [("run", Node [("echo", Leaf (VBool true))]); ("tasks", Node []); ("sudo", Node []);
+            ("timeouts", Node [("command", Leaf (VInt 5))])].
+Proof. exact overrides_example. Qed.
 
 (** [C18_core_prefix]: a prefix made only of admissible core option spellings is
     consumed entirely by the core pass; everything from the first plain word on
